@@ -83,7 +83,40 @@ theorem launch_covered_log (programs : List (List Op)) {evs : List (Ev Op)} {s s
   have hc : s.subj.counter ≠ 0 := by rw [counter_sum h]; omega
   ⟨(wait_parks h.reach hen hs ha hth hop hc hlive hth').1, (wait_parks h.reach hen hs ha hth hop hc hlive hth').2.1⟩
 
+/-- `Launch`-shaped programs (`Balanced`: in every program every prefix has a non-negative delta sum,
+    i.e. each `Done` is preceded in its own thread by the `Add` it matches — `Launch` is
+    `Add(1) … Done`): the counter is exactly the sum over the threads of the deltas they completed,
+    and no `Add`/`Done` ever panics -/
+theorem balanced_counter (programs : List (List Op)) (hb : Balanced programs) {s : Sys St Op}
+    (hr : Reach subject (init programs) s) :
+    s.subj.counter = (s.ths.map doneOf).sum ∧
+    ∀ (t : Nat) (th : Th Op) (n : Int), s.ths[t]? = some th → th.ops[th.pc]? = some (.add n) → ¬ (s.subj.counter + n < 0) :=
+  ⟨(reach_binv hb hr).sum, fun _ _ _ hth hop => balanced_no_panic hb hr hth hop⟩
+
+/-- … hence between an `Add(1)` and its matching `Done` no live-context `Wait` returns: while some
+    thread `p` is strictly inside a launch (its completed deltas sum to ≥ 1: its `Add` has returned,
+    its `Done` has not), every `Wait` segment with a live context parks -/
+theorem launch_covered_balanced (programs : List (List Op)) (hb : Balanced programs) {s s' : Sys St Op} {a : Act}
+    {obs : String} {t p : Nat} {th th' thp : Th Op} (hr : Reach subject (init programs) s)
+    (hp : s.ths[p]? = some thp) (hin : 1 ≤ prefixSum thp.ops thp.pc)
+    (hen : a ∈ enabled s true) (hs : step subject s a = some (s', obs)) (ha : a = .start t ∨ a = .resume t)
+    (hth : s.ths[t]? = some th) (hop : th.ops[th.pc]? = some .wait)
+    (hlive : a = .resume t → th.cancelled = false) (hth' : s'.ths[t]? = some th') :
+    1 ≤ s.subj.counter ∧ th'.st = .parked 0 ∧ th'.pc = th.pc := by
+  have hc : 1 ≤ s.subj.counter := Int.le_trans hin (counter_ge_inflight hb hr hp)
+  have := wait_parks hr hen hs ha hth hop (by omega) hlive hth'
+  exact ⟨hc, this.1, this.2.1⟩
+
 /-! ### non-vacuity -/
+
+/-- a launcher and a waiter: balanced -/
+example : Balanced [[.add 1, .add (-1)], [.wait]] := by
+  intro p hp n
+  simp at hp
+  rcases hp with rfl | rfl
+  · rcases n with _ | _ | n <;> simp [prefixSum, opDelta]
+  · rcases n with _ | n <;> simp [prefixSum, opDelta]
+
 
 /-- thread 0 did `Add(1)`, thread 1 called `Wait` and is parked: reachable, quiescent, a thread is
     parked (so `no_stuck_wg`, `parked_invariant` speak about something) and the counter is 1 -/
